@@ -572,6 +572,14 @@ class Evaluator:
                 if d is None:
                     raise Unrecognised(f"discriminant of {v[1]} unknown")
                 return ("int", d)
+            ty_ = str(e.get("ty", ""))
+            if v[0] == "int" and ty_ in _INT_WIDTH:
+                # a concrete integer narrowed (or reinterpreted) by `as`: wraps to the target type
+                bits_, signed_ = _INT_WIDTH[ty_]
+                n_ = v[1] & ((1 << bits_) - 1)
+                if signed_ and n_ >= 1 << (bits_ - 1):
+                    n_ -= 1 << bits_
+                return ("int", n_)
             return v
         if k in ("assign",):
             l = hir.simp(e["l"])
@@ -1101,6 +1109,8 @@ def _next_call(e):
     return None
 
 
+_INT_WIDTH = {"u8": (8, False), "u16": (16, False), "u32": (32, False), "u64": (64, False), "u128": (128, False), "usize": (64, False),
+              "i8": (8, True), "i16": (16, True), "i32": (32, True), "i64": (64, True), "i128": (128, True), "isize": (64, True)}
 import re as _re_mod
 _PRIM_REF_OP = _re_mod.compile(r"^<&?(?:'\w+ )?(u8|u16|u32|u64|usize|i8|i16|i32|i64|isize) as core::ops::(arith|bit)::\w+<&?(?:'\w+ )?\1>>::\w+$")
 
